@@ -444,6 +444,25 @@ impl Cfg {
         }
     }
 
+    /// Returns the local variables which are declared, but never assigned to. (This is the
+    /// case for the first version of an array which is assigned to element by element.)
+    fn unassigned_locals(&self) -> Vec<VariableName> {
+        let written = self
+            .iter()
+            .flat_map(|basic_block| basic_block.iter())
+            .flat_map(|stmt| stmt.variables_written().map(|var| var.name().clone()).collect::<Vec<_>>())
+            .collect::<HashSet<_>>();
+        self.declarations()
+            .iter()
+            .filter(|(name, declaration)| {
+                matches!(declaration.variable_type(), VariableType::Local)
+                    && !written.contains(*name)
+                    && !self.parameters().contains(name)
+            })
+            .map(|(name, _)| name.clone())
+            .collect()
+    }
+
     /// Propagate expression degrees along the CFG.
     pub(crate) fn propagate_degrees(&mut self) {
         use Degree::*;
@@ -459,6 +478,13 @@ impl Cfg {
                 // For templates, the parameters are constants.
                 env.set_degree(param, &Constant.into());
             }
+        }
+        // A local variable which is never assigned to holds the initial value zero, which has
+        // constant degree.
+        let unassigned_locals = self.unassigned_locals();
+        for name in unassigned_locals.iter() {
+            env.set_type(name, &VariableType::Local);
+            env.set_degree(name, &Constant.into());
         }
         let mut rerun = true;
         let start = Instant::now();
